@@ -40,7 +40,7 @@ T = {
          'Rocq lexer read-back theorem + correspondence; round-trip exploration for the parser half'),
  'C14': ('Coq theorems: the elimination loop computes exactly the dominators (paths in the predecessor graph) for every graph, iteration order and fuel - the fixpoint property of the result is proved - and recovery = union of dominator follow sets minus first/follow of the body; the end-of-input token is in follow or recovery of every loop, and the emitted loop (Compile.c_recover, tied by KB) is left on such a token; K2 correspondence + brute-force dominators on an independent graph',
          'Rocq model + K2/KB correspondence, brute-force dominator oracle'),
- 'C15': ('partial: cross-process determinism and behaviour under permuted declarations observed on the real binary and compiled parsers; two Coq theorems (dominator sets independent of the hash iteration order; first sets independent of the order of the rule declarations, as a corollary of the C09 exactness theorem)',
+ 'C15': ('partial: cross-process determinism and behaviour under permuted declarations observed on the real binary and compiled parsers; Coq theorems (dominator sets independent of the hash iteration order; first, follow and predict sets independent of the order of the rule declarations, as corollaries of the C09 exactness theorems)',
          'differential runs of the real binary and generated parsers'),
  'C16': ('translation validation + pairwise comparison of parses with and without trivia; Coq theorems for one clause only (the current token and the predicate lookahead are never skipped tokens, for every program/input)',
          'translator + K1/K3 correspondence, trivia-pair oracle'),
